@@ -21,6 +21,11 @@ def hasAction (n : Nat) : Bool := Gen.mmProdBody.any fun p => p.1 == n
 def prodsOf (A : String) : List Nat :=
   (List.range Gen.mmProdRhs.length).filter fun n => prodLhs n == A
 
+/-- the distinct pairs (left-hand side name, nonterminal number `mmR1[n]`) over all productions -/
+def lhsPairs : List (String × Option Int) :=
+  (List.range Gen.mmProdRhs.length).foldl
+    (fun acc n => let p := (prodLhs n, genTables.r1.get? n); if acc.contains p then acc else p :: acc) []
+
 /-- look through chain productions without action (`$$ = $1`): a nonterminal
 whose ONLY production is `A: X` with the default action carries X's value -/
 def resolveSym : Nat → String → String
